@@ -102,10 +102,10 @@ def _param(draw, name, via):
   if draw(st.integers(0, 9)) < 6:
     p['default'] = draw(st.sampled_from(_default_candidates(p)))
   if via == 'factory':
+    # any external type on any kind ("not all combinations make sense" but
+    # all are accepted); scale None stays None on the factory path
     p['ext'] = draw(st.sampled_from(
         [None, 'INTERNAL', 'BOOLEAN', 'INTEGER', 'FLOAT']))
-    if k == 'DOUBLE' and draw(st.booleans()):
-      pass  # scale None stays None on the factory path
   return p
 
 
